@@ -59,6 +59,9 @@ type auditItem struct {
 	Seq     int    `json:"seq"`
 	NLines  int    `json:"n_lines"`
 	Session int    `json:"session"`
+	// EXECVE only: bytes of the argument list (0 = two short arguments).  The UserAction carries the arguments
+	// (metadata.extra.process_args), so its JSON line is about that long: beyond PIPE_BUF / one page and up to 70 KiB
+	ArgBytes int `json:"arg_bytes,omitempty"`
 }
 
 // sessionPlan: one (would-be) SSH session.
@@ -90,6 +93,15 @@ type phase struct {
 }
 
 type scenario struct {
+	// Big: large events written by both pipelines at the same moment - execve events with long / many arguments
+	// (UserAction lines of 4-70 KiB), certificate logins with long key ids and long account names (UserLogin lines
+	// beyond 4 KiB, and every UserAction of such a session), no pacing, at least two OS threads; and a BURST on the sshd
+	// pipe for as long as the audit pipeline is busy with the large events: after each write of the scenario's own sshd
+	// text StormBatch stand-alone failure lines (stormItem) are written, and further batches until the events file holds
+	// as many UserActions as the scenario must produce (bounded: stormMax lines, stormBound).  How many that were is an
+	// outcome of the run (runResult.Storm); the oracles count them as lines written to the sshd pipe.
+	Big        bool          `json:"large_events,omitempty"`
+	StormBatch int           `json:"sshd_burst_lines_per_write,omitempty"`
 	Prefill    int           `json:"events_file_prefilled_lines,omitempty"` // events already in the output file when the daemon starts (a restart)
 	LogLevel   string        `json:"log_level,omitempty"`                   // -log-level of the daemon ("" = its default, info)
 	GoMaxProcs int           `json:"gomaxprocs"`                            // GOMAXPROCS of the daemon process, 0 = default (a CPU-limited container runs with 1 or 2)
@@ -104,6 +116,7 @@ const (
 	sentinelPID  = 3999999
 	sentinelSes  = 3999998
 	sentinelUser = "verif-sentinel"
+	stormPID     = 5000000 // pids of the burst lines: stormPID + i
 	unsetSes     = "4294967295"
 )
 
@@ -161,6 +174,15 @@ func genKeyID(r *hutil.Rand) string {
 }
 
 func genSshd(r *hutil.Rand, kind string, pid, session int, user string) sshdItem {
+	return genSshdWith(r, kind, pid, session, user, "")
+}
+
+// genSshdCert: a certificate login with the given key id.
+func genSshdCert(r *hutil.Rand, pid, session int, user, keyID string) sshdItem {
+	return genSshdWith(r, "accepted_cert", pid, session, user, keyID)
+}
+
+func genSshdWith(r *hutil.Rand, kind string, pid, session int, user, keyID string) sshdItem {
 	it := sshdItem{Kind: kind, PID: pid, User: user, Addr: genAddr(r), Port: fmt.Sprint(1 + r.Intn(65535)),
 		Pad: []int{0, 0, 1, 2}[r.Intn(4)], Session: session}
 	switch kind {
@@ -170,6 +192,9 @@ func genSshd(r *hutil.Rand, kind string, pid, session int, user string) sshdItem
 		it.Msg = fmt.Sprintf("Accepted publickey for %s from %s port %s ssh2: %s %s", it.User, it.Addr, it.Port, hutil.Pick(r, keyTypes), genFP(r))
 	case "accepted_cert":
 		it.KeyID = genKeyID(r)
+		if keyID != "" {
+			it.KeyID = keyID
+		}
 		it.Msg = fmt.Sprintf("Accepted publickey for %s from %s port %s ssh2: %s %s ID %s (serial %d) CA %s %s",
 			it.User, it.Addr, it.Port, hutil.Pick(r, keyTypes[4:]), genFP(r), it.KeyID, r.Intn(100000), hutil.Pick(r, keyTypes[:4]), genFP(r))
 	case "failed_password":
@@ -225,10 +250,21 @@ func renderAudit(r *hutil.Rand, a *auditItem, acct string) string {
 		// the records of one execve event as auditd writes them: contiguous, one sequence number, PROCTITLE last
 		prog := hutil.Pick(r, []string{"ls", "cat", "vim", "curl"})
 		arg := hutil.Pick(r, []string{"--color=auto", "/etc/passwd", "-x", "http://example.com/a?b=c&d=<e>"})
+		execve := fmt.Sprintf("type=EXECVE msg=%s: argc=2 a0=\"%s\" a1=\"%s\"", stamp, prog, arg)
+		if a.ArgBytes > 0 {
+			args := genBigArgs(r, a.ArgBytes)
+			var sb strings.Builder
+			fmt.Fprintf(&sb, "type=EXECVE msg=%s: argc=%d a0=\"%s\"", stamp, len(args)+1, prog)
+			for i, x := range args {
+				fmt.Fprintf(&sb, " a%d=%s", i+1, x)
+			}
+			execve = sb.String()
+			arg = "-big"
+		}
 		lines := []string{
 			fmt.Sprintf("type=SYSCALL msg=%s: arch=c000003e syscall=59 success=yes exit=0 a0=56430ae99960 a1=56430aea8040 a2=56430aef7f30 a3=8 items=2 ppid=%d pid=%d auid=%s uid=1000 gid=1000 euid=1000 suid=1000 fsuid=1000 egid=1000 sgid=1000 fsgid=1000 tty=pts3 ses=%s comm=\"%s\" exe=\"/usr/bin/%s\" key=\"operator-commands\"",
 				stamp, a.PID, a.PID+1+r.Intn(50), auid, a.Ses, prog, prog),
-			fmt.Sprintf("type=EXECVE msg=%s: argc=2 a0=\"%s\" a1=\"%s\"", stamp, prog, arg),
+			execve,
 			fmt.Sprintf("type=CWD msg=%s: cwd=\"/home/u\"", stamp),
 			fmt.Sprintf("type=PATH msg=%s: item=0 name=\"/usr/bin/%s\" inode=1442550 dev=fd:00 mode=0100755 ouid=0 ogid=0 rdev=00:00 nametype=NORMAL cap_fp=0 cap_fi=0 cap_fe=0 cap_fver=0 cap_frootid=0", stamp, prog),
 			fmt.Sprintf("type=PATH msg=%s: item=1 name=\"/lib64/ld-linux-x86-64.so.2\" inode=1448144 dev=fd:00 mode=0100755 ouid=0 ogid=0 rdev=00:00 nametype=NORMAL cap_fp=0 cap_fi=0 cap_fe=0 cap_fver=0 cap_frootid=0", stamp),
@@ -238,6 +274,88 @@ func renderAudit(r *hutil.Rand, a *auditItem, acct string) string {
 		return strings.Join(lines, "\n") + "\n"
 	}
 	panic("unknown audit type " + a.Type)
+}
+
+// genBigArgs: an argument list of about total bytes as auditd writes it - a quoted string for plain words, upper-case
+// hex for anything with blanks, quotes or non-ASCII bytes; many short arguments, a few very long ones, or a mix.
+func genBigArgs(r *hutil.Rand, total int) []string {
+	const plain = "abcdefghijklmnopqrstuvwxyzABCDEFGHIJKLMNOPQRSTUVWXYZ0123456789-_./=:,+@%"
+	rich := []string{"a", "e", "o", " ", " ", "\"", "'", "\\", "{", "}", ":", ",", "\t", "é", "日", "<", "&", "x", "y", "0"}
+	style := r.Intn(3)
+	var out []string
+	for left := total; left > 0; {
+		n := 0
+		switch style {
+		case 0: // many short
+			n = 4 + r.Intn(40)
+		case 1: // few long
+			n = 1000 + r.Intn(8000)
+		default:
+			n = []int{1 + r.Intn(16), 20 + r.Intn(200), 500 + r.Intn(3000), 4000 + r.Intn(200)}[r.Intn(4)]
+		}
+		if n > left {
+			n = left
+		}
+		left -= n
+		var sb strings.Builder
+		if r.Chance(1, 3) {
+			for sb.Len() < n {
+				sb.WriteString(hutil.Pick(r, rich))
+			}
+			out = append(out, strings.ToUpper(hex.EncodeToString([]byte(sb.String()))))
+		} else {
+			sb.WriteByte('"')
+			for i := 0; i < n; i++ {
+				sb.WriteByte(plain[r.Intn(len(plain))])
+			}
+			sb.WriteByte('"')
+			out = append(out, sb.String())
+		}
+	}
+	return out
+}
+
+// stormItem: the i-th line of the burst on the sshd pipe (its own sshd process each).
+func stormItem(i int) sshdItem {
+	it := sshdItem{Kind: "invalid_user", PID: stormPID + i, User: fmt.Sprintf("burst-%d", i), Addr: "192.0.2.7", Port: fmt.Sprint(1024 + i%60000), Session: -1}
+	if i%3 == 1 {
+		it.Kind = "failed_password"
+		it.Msg = fmt.Sprintf("Failed password for %s from %s port %s ssh2", it.User, it.Addr, it.Port)
+	} else {
+		it.Msg = fmt.Sprintf("Invalid user %s from %s port %s", it.User, it.Addr, it.Port)
+	}
+	return it
+}
+
+// mandatoryActions: how many UserActions the scenario must produce (LOGIN record, events and disposal record of the
+// sessions with both halves).
+func (sc *scenario) mandatoryActions() int {
+	n := 0
+	for _, sp := range sc.Sessions {
+		if sp.Kind != "full" {
+			continue
+		}
+		for _, ai := range sp.Audit {
+			switch sc.Audit[ai].Role {
+			case "login", "event", "disp":
+				n++
+			}
+		}
+	}
+	return n
+}
+
+// genLong: a long account name / key id (sshd logs what the client or the CA chose)
+func genLong(r *hutil.Rand, lo, hi int, blanks bool) string {
+	n := lo + r.Intn(hi-lo)
+	var sb strings.Builder
+	for sb.Len() < n {
+		sb.WriteString(hutil.Pick(r, nameAlphabet))
+		if blanks && r.Chance(1, 12) {
+			sb.WriteByte(' ')
+		}
+	}
+	return strings.TrimSpace(sb.String()) + "z"
 }
 
 // ---------- scenario generator ----------
@@ -251,7 +369,7 @@ type protoItem struct {
 	text  string
 }
 
-func genScenario(r *hutil.Rand) *scenario {
+func genScenario(r *hutil.Rand, big bool) *scenario {
 	nSess := 1 + r.Intn(8)
 	sc := &scenario{GoMaxProcs: []int{0, 0, 0, 1, 2, 4}[r.Intn(6)]}
 	if r.Chance(1, 3) {
@@ -259,6 +377,24 @@ func genScenario(r *hutil.Rand) *scenario {
 	}
 	if r.Chance(1, 4) {
 		sc.Prefill = 1 + r.Intn(3)
+	}
+	if big {
+		sc.Big = true
+		sc.GoMaxProcs = []int{0, 0, 2, 4}[r.Intn(4)] // the two pipelines must be able to write at the same moment
+		sc.StormBatch = []int{1, 5, 20, 60}[r.Intn(4)]
+	}
+	// sizes: mostly just beyond one page (such an event costs the audit pipeline about a millisecond, so many of them fit
+	// into the time the sshd pipeline needs for its failure lines), some of 9-20 KiB, a few up to 70 KiB
+	outBudget := 1500000 // bytes that sessions with a long identity add to the events file, per scenario
+	bigBudget := 160000 // bytes of arguments per scenario (keeps run time and replay files bounded)
+	bigSize := func() int {
+		n := []int{3000 + r.Intn(1300), 4300 + r.Intn(2000), 4300 + r.Intn(4700), 5000 + r.Intn(4000), 6000 + r.Intn(3000),
+			9000 + r.Intn(11000), 9000 + r.Intn(11000), 20000 + r.Intn(50000)}[r.Intn(8)]
+		if n > bigBudget {
+			n = 0
+		}
+		bigBudget -= n
+		return n
 	}
 	var seqs [][]*protoItem // per session: its items in the order they must be written
 	usedPID := map[int]bool{}
@@ -295,6 +431,13 @@ func genScenario(r *hutil.Rand) *scenario {
 		sp := sessionPlan{Kind: kind, PID: newPID(), Ses: newSes(), Login: -1}
 		ses := fmt.Sprint(sp.Ses)
 		user := genName(r)
+		longKey := "" // large-event scenarios: a certificate login with a key id of some KiB
+		if sc.Big && r.Chance(1, 4) {
+			user = genLong(r, 200, 3000, false)
+		}
+		if sc.Big && r.Chance(1, 2) {
+			longKey = genLong(r, 1000, 9000, true)
+		}
 		var audit []*protoItem
 		switch kind {
 		case "full", "cron":
@@ -304,8 +447,29 @@ func genScenario(r *hutil.Rand) *scenario {
 				}
 			}
 			audit = append(audit, au("login", "LOGIN", sp.PID, ses, i, user))
-			for k := r.Intn(7); k > 0; k-- {
-				audit = append(audit, au("event", hutil.Pick(r, eventTypes), sp.PID, ses, i, user))
+			nEv := r.Intn(7)
+			if sc.Big {
+				nEv = 2 + r.Intn(10)
+			}
+			// every UserAction carries the login's account and key id: with a long identity each event of the
+			// session is a large output line however short its audit record - many such events, written in
+			// quick succession by the audit pipeline
+			longIdentity := false
+			if id := len(user) + len(longKey); sc.Big && id > 3500 {
+				longIdentity = true
+				nEv = 20 + r.Intn(100)
+				if nEv*id > outBudget {
+					nEv = outBudget / id
+				}
+				outBudget -= nEv * id
+			}
+			for k := nEv; k > 0; k-- {
+				it := au("event", hutil.Pick(r, eventTypes), sp.PID, ses, i, user)
+				if sc.Big && !longIdentity && r.Chance(2, 3) {
+					it.audit.Type = "EXECVE"
+					it.audit.ArgBytes = bigSize()
+				}
+				audit = append(audit, it)
 			}
 			if r.Chance(3, 5) {
 				audit = append(audit, au("disp", "CRED_DISP", sp.PID, ses, i, user))
@@ -343,6 +507,9 @@ func genScenario(r *hutil.Rand) *scenario {
 		var loginItem *protoItem
 		if hasLogin {
 			it := genSshd(r, acceptedKind(), sp.PID, i, user)
+			if longKey != "" {
+				it = genSshdCert(r, sp.PID, i, user, longKey)
+			}
 			loginItem = &protoItem{sshd: &it}
 			sshdSide = append(sshdSide, loginItem)
 		}
@@ -417,6 +584,9 @@ func genScenario(r *hutil.Rand) *scenario {
 	// phases: cut the merged history at random item positions, half of them just before or after an accepted
 	// login (so that "records first, login later" and "login first, records later" are really realised)
 	nPh := 1 + r.Intn(5)
+	if sc.Big {
+		nPh = 1 // the burst on the sshd pipe (see run.go: storm) accompanies the whole history
+	}
 	if nPh > len(merged) {
 		nPh = 1
 	}
@@ -515,7 +685,11 @@ func genScenario(r *hutil.Rand) *scenario {
 		class := r.Intn(4)
 		pp.SshdCuts = genCuts(r, len(pp.Sshd), class)
 		pp.AuditCuts = genCuts(r, len(pp.Audit), []int{class, r.Intn(4)}[r.Intn(2)])
-		if len(pp.SshdCuts)+len(pp.AuditCuts) < 60 {
+		if sc.Big {
+			// whole records or page-sized pieces, no pacing: the pipelines run at full speed
+			pp.SshdCuts = genCuts(r, len(pp.Sshd), 2+r.Intn(2))
+			pp.AuditCuts = genCuts(r, len(pp.Audit), 2+r.Intn(2))
+		} else if len(pp.SshdCuts)+len(pp.AuditCuts) < 60 {
 			pp.GapUs = []int{0, 0, 30, 300, 1500}[r.Intn(5)]
 		}
 		sc.Phases = append(sc.Phases, pp)
